@@ -28,6 +28,7 @@ CONSTANTS NF,        \* number of functions
           MaxWrites, \* input writes per behaviour
           Emit,      \* print one REPLAY line per complete behaviour
           Progs,     \* set of programs [calls |-> [F -> Seq(F)], gate |-> [F -> Nat]]
+          Fb,        \* FALSE: fixpoint functions (cycle_fn / cycle_initial); TRUE: cycle_result (FallbackImmediate)
           Mut        \* mutation switch for self-tests of the model
 
 F == 1..NF
@@ -47,6 +48,18 @@ LfpIter(p, b, v, n) ==
     LET v2 == [j \in F |-> {j} \cup UNION {v[g] : g \in ActiveCalls(p, j, b)}] IN
     IF v2 = v \/ n = 0 THEN v ELSE LfpIter(p, b, v2, n - 1)
 Lfp(p, b) == LfpIter(p, b, [j \in F |-> {}], NF + 2)
+
+\* fallback semantics (C13): a function on a cycle of the call graph returns its fallback ({}),
+\* everything else is evaluated on top of those values
+RECURSIVE ReachN(_, _, _, _, _)
+ReachN(p, b, front, seen, n) ==
+    LET nxt == UNION {ActiveCalls(p, g, b) : g \in front} \ seen IN
+    IF nxt = {} \/ n = 0 THEN seen ELSE ReachN(p, b, nxt, seen \cup nxt, n - 1)
+OnCyc(p, b, j) == LET e == ActiveCalls(p, j, b) IN j \in ReachN(p, b, e, e, NF + 1)
+RECURSIVE FbVal(_, _, _, _)
+FbVal(p, b, j, n) == IF OnCyc(p, b, j) \/ n = 0 THEN {}
+                     ELSE {j} \cup UNION {FbVal(p, b, g, n - 1) : g \in ActiveCalls(p, j, b)}
+FbSem(p, b) == [j \in F |-> FbVal(p, b, j, NF + 1)]
 
 NoHeads == [h \in F |-> -1]
 Only(j, it) == [h \in F |-> IF h = j THEN it ELSE -1]
@@ -142,7 +155,7 @@ define {
     BackdateFires(old, newheads, newdur, newval, newcat) ==
         CanBackdate(old, newheads, newdur, newval) /\ old.cat > newcat /\ HeadSet(old.heads) = {}
 
-    Expected == Lfp(prog, inp)
+    Expected == IF Fb THEN FbSem(prog, inp) ELSE Lfp(prog, inp)
 }
 
 macro AddHeads(newh) {
@@ -317,11 +330,13 @@ procedure Exec(eq)
             lock[eq] := "xfer";
             xto[eq] := OuterOf(nh, eq);
         };
-        memo[eq] := [has |-> TRUE, val |-> acc, final |-> FALSE, heads |-> nh, conv |-> FALSE, it |-> iteration + 1,
+        \* (FallbackImmediate: every participant of a cycle takes its fallback value)
+        memo[eq] := [has |-> TRUE, val |-> IF Fb THEN {} ELSE acc, final |-> FALSE, heads |-> nh, conv |-> FALSE, it |-> iteration + 1,
                      vat |-> rev, cat |-> fr[Top].cat, dur |-> fr[Top].dur, deps |-> flat];
      } else {
         if (~lphas /\ ~memo[eq].has) { bad := bad \cup {"NoProvisionalMemo"}; };
         last := IF lphas THEN lp ELSE memo[eq];
+        acc := IF Fb THEN {} ELSE acc;
  E8:    if (HasOuter(nh, eq)) {
             \* nested head: iterated as part of the outer cycle
             memo[eq] := [has |-> TRUE, val |-> acc, final |-> FALSE, heads |-> nh, it |-> iteration, vat |-> rev,
@@ -369,7 +384,7 @@ procedure Exec(eq)
  L0: while (nops < MaxOps) {
         either {
             with (j \in F) { lastreq := j; call Fetch(j); };
- L1:        bad := bad \cup (IF rv # Expected[lastreq] THEN {"C12"} ELSE {})
+ L1:        bad := bad \cup (IF rv # Expected[lastreq] THEN {IF Fb THEN "C13" ELSE "C12"} ELSE {})
                        \cup (IF qstack # <<>> THEN {"StackLeft"} ELSE {})
                        \cup (IF \E j \in F : lock[j] = "held" \/ (lock[j] = "xfer" /\ Owned(j)) THEN {"LockLeft"} ELSE {});
             nops := nops + 1;
@@ -459,7 +474,7 @@ Backdated(old, newheads, newdur, newval, newcat) ==
 BackdateFires(old, newheads, newdur, newval, newcat) ==
     CanBackdate(old, newheads, newdur, newval) /\ old.cat > newcat /\ HeadSet(old.heads) = {}
 
-Expected == Lfp(prog, inp)
+Expected == IF Fb THEN FbSem(prog, inp) ELSE Lfp(prog, inp)
 
 VARIABLES fq, dq, di, dvat, mq, mr, eq, ci, acc, rounds, iteration, old, 
           lphas, lp, P, nh, dep, cit, last, flat
@@ -984,21 +999,22 @@ E7 == /\ pc = "E7"
                        ELSE /\ lock' = [lock EXCEPT ![eq] = "xfer"]
                             /\ xto' = [xto EXCEPT ![eq] = OuterOf(nh, eq)]
                             /\ bad' = bad
-                 /\ memo' = [memo EXCEPT ![eq] = [has |-> TRUE, val |-> acc, final |-> FALSE, heads |-> nh, conv |-> FALSE, it |-> iteration + 1,
+                 /\ memo' = [memo EXCEPT ![eq] = [has |-> TRUE, val |-> IF Fb THEN {} ELSE acc, final |-> FALSE, heads |-> nh, conv |-> FALSE, it |-> iteration + 1,
                                                   vat |-> rev, cat |-> fr[Top].cat, dur |-> fr[Top].dur, deps |-> flat]]
                  /\ pc' = "E6"
-                 /\ last' = last
+                 /\ UNCHANGED << acc, last >>
             ELSE /\ IF ~lphas /\ ~memo[eq].has
                        THEN /\ bad' = (bad \cup {"NoProvisionalMemo"})
                        ELSE /\ TRUE
                             /\ bad' = bad
                  /\ last' = IF lphas THEN lp ELSE memo[eq]
+                 /\ acc' = IF Fb THEN {} ELSE acc
                  /\ pc' = "E8"
                  /\ UNCHANGED << memo, lock, xto >>
       /\ UNCHANGED << prog, inp, rev, lastchg, qstack, fr, rv, rh, rcat, rdur, 
                       rchg, rok, nops, nwr, lastreq, xlog, hist, stack, fq, dq, 
-                      di, dvat, mq, mr, eq, ci, acc, rounds, iteration, old, 
-                      lphas, lp, P, nh, dep, cit, flat >>
+                      di, dvat, mq, mr, eq, ci, rounds, iteration, old, lphas, 
+                      lp, P, nh, dep, cit, flat >>
 
 E8 == /\ pc = "E8"
       /\ IF HasOuter(nh, eq)
@@ -1105,7 +1121,7 @@ L0 == /\ pc = "L0"
                       flat >>
 
 L1 == /\ pc = "L1"
-      /\ bad' = (bad \cup (IF rv # Expected[lastreq] THEN {"C12"} ELSE {})
+      /\ bad' = (bad \cup (IF rv # Expected[lastreq] THEN {IF Fb THEN "C13" ELSE "C12"} ELSE {})
                      \cup (IF qstack # <<>> THEN {"StackLeft"} ELSE {})
                      \cup (IF \E j \in F : lock[j] = "held" \/ (lock[j] = "xfer" /\ Owned(j)) THEN {"LockLeft"} ELSE {}))
       /\ nops' = nops + 1
